@@ -83,7 +83,25 @@ JudgeEvent(ev) ==
           /\ (SeqBag(d.rename_keys) = SeqBag([q \in 1..Len(ik \o ks) |-> MapKey(ev.maps[2].map, (ik \o ks)[q])])
               \/ Report("C20", "descriptor_translated_keys_differ", ev, d.rename_keys))
           /\ (d.rename_script = ExpectedScript(ev, m, ev.maps[2].map)
-              \/ Report("C20", "descriptor_translated_script_is_not_substitution", ev, d.wrap))))
+              \/ Report("C20", "descriptor_translated_script_is_not_substitution", ev, d.wrap)))
+      \* what translate_pk returns is a descriptor of its type (also key-only outputs: pkh, wpkh,
+      \* sh-wpkh, tr without a tree): under an injective mapping an Ok result prints and parses back
+      \* to an equal object (so an object carrying a key its context forbids is never returned),
+      \* and a mapping that succeeds on legal keys is not refused
+      /\ \A a \in 1..Len(d.valid) : \A q \in 1..Len(d.valid[a].rows) :
+           LET o == d.valid[a]
+               r == o.rows[q]
+               map == (CHOOSE t \in Range(ev.maps) : t.name = r.name).map
+               unc == \E k \in Range(o.keys) : MapKey(map, k) < 0
+               forbids == o.wrap \in {"wsh", "shwsh", "wpkh", "shwpkh", "tr", "trkey"}
+           IN
+           /\ (r.st # "panic" \/ Report("C11", "translate_panic", ev, <<o.wrap, r.name>>))
+           /\ (r.st # "ok" \/ r.reparse \in {"equal", "same_output"}
+               \/ Report("C20", "translated_descriptor_is_not_a_valid_descriptor", ev, <<o.wrap, r.name, r.reparse>>))
+           /\ (r.st # "err" \/ (unc /\ forbids)
+               \/ Report("C20", "descriptor_translation_fails", ev, <<o.wrap, r.name>>))
+           /\ (r.st # "ok" \/ unc \/ SeqBag(r.keys) = SeqBag([x \in 1..Len(o.keys) |-> MapKey(map, o.keys[x])])
+               \/ Report("C20", "descriptor_translated_keys_differ", ev, <<o.wrap, r.name, r.keys>>)))
 
 Inv == i > 0 => JudgeEvent(Rec[i])
 Post == PrintT("TRACE_DONE " \o ToJson(<<Len(Rec), TLCGet("stats").distinct>>))
